@@ -51,6 +51,11 @@ class St(object):
     def action():
       self.ev += 1
       self.acts[idx]['runs'].append((self.lp.now(), self.ev))
+    if idx % 2 == 1:
+      # every second action is a callable without function attributes (as functools.partial objects and bound
+      # callables are): an action is "something callable", nothing more
+      import functools
+      return functools.partial(action)
     return action
 
   def apply(self, op):
@@ -240,8 +245,8 @@ CONFIGS = {
     # several overdue deadlines (different past ticks) scheduled in the same instant, after earlier actions have run
     ({'res': 0.01, 'dts': [-0.0325, -0.0225, -0.0125, 0.0125], 'advs': [0.02],
       'max_actions': 4, 'max_preempt': 2, 'preempt_depth': 1}, 6),
-    # deadlines exactly on a tick (2.0 s at a resolution of 1 s: exact in binary floating point) and a hair past a tick (2.0004 s)
-    ({'res': 1, 'dts': [0.02, 0.020004, 0.0125, 0.0], 'advs': [0.005, 0.02],
+    # deadlines exactly on a tick (2.0 s at a resolution of 1 s: exact in binary floating point), a hair past a tick (2.0004 s), 3.25 s overdue
+    ({'res': 1, 'dts': [0.02, 0.020004, 0.0125, 0.0, -0.0325], 'advs': [0.005, 0.02],
       'max_actions': 3, 'max_preempt': 1, 'preempt_depth': 2}, 5),
     # many pending actions scheduled in every order of five deadlines (the queue's heap gets several levels deep)
     ({'res': 0.01, 'dts': [0.0025, 0.0125, 0.0225, 0.0325, 0.0425], 'advs': [], 'kinds': 'S',
